@@ -18,6 +18,7 @@ import (
 	"fmt"
 	"io"
 	"math/big"
+	"runtime"
 	"strings"
 	"time"
 
@@ -1356,6 +1357,90 @@ func c18TamperRound3(c *Ctx, run *c18Run) {
 	_ = hdr
 }
 
+// ---------------------------------------------------------------- environments (GOMAXPROCS)
+//
+// The property quantifies over the environment the process runs in.  The
+// codec round trip, the restart family and the rejection of malformed points
+// in the TAIL of a Round2 message are repeated under several GOMAXPROCS
+// values (a worker count derived from it must not change what a decoder
+// accepts or returns).  The pure model has no such parameter: every case
+// below is also a correspondence case whose expected observable is the same
+// for every value.
+
+func c18Environments(c *Ctx, run *c18Run) {
+	cv := run.cv
+	r := c.rng.Fork()
+	procs := []int{1, 3, 7, 16}
+	if c.Thorough() {
+		procs = []int{1, 2, 3, 5, 6, 7, 12, 16, 24}
+	}
+	// Round2 messages whose LAST choice points are not curve points
+	enc2 := run.enc[c18R2]
+	var tampered []c18Mut
+	for _, idx := range []int{255, 254, 250} {
+		off := 16 + idx*cv.bl
+		if off+cv.bl > len(enc2) {
+			continue
+		}
+		b := cloneBytes(enc2)
+		for try := 0; try < 64; try++ {
+			b[off+cv.bl-1-r.Intn(8)] ^= 1 << uint(r.Intn(8))
+			comp := append([]byte{2}, b[off:off+cv.bl]...)
+			if x, _ := elliptic.UnmarshalCompressed(cv.c, comp); x == nil {
+				tampered = append(tampered, c18Mut{name: fmt.Sprintf("tail-point-%d-not-on-curve", idx), segs: c18Auto(b)})
+				break
+			}
+		}
+	}
+	prev := runtime.GOMAXPROCS(0)
+	defer runtime.GOMAXPROCS(prev)
+	for _, n := range procs {
+		runtime.GOMAXPROCS(n)
+		tag := fmt.Sprintf("gomaxprocs=%d", n)
+		rep := c18Replay{Seed: c.Seed, Curve: cv.name, A: fmt.Sprintf("%x", run.a), B: fmt.Sprintf("%x", run.b),
+			Seeds: fmt.Sprintf("%d,%d,%d", run.s1, run.s2, run.s3), Plan: "runtime.GOMAXPROCS(" + fmt.Sprint(n) + ")"}
+		// decode(encode(v)) == v for every kind
+		for _, kind := range []int{c18R1, c18R2, c18R3, c18GS, c18ES} {
+			v := c18Val{kind, run}
+			enc, cls := v.encode()
+			if cls != clsOk {
+				continue
+			}
+			d := c18Decode(kind, cv, enc)
+			c.Eval(fmt.Sprintf("env|%s|%d|%d|%d", cv.name, n, kind, run.s1), true)
+			if d.class != clsOk || sxKey(d.obs) != sxKey(v.fields()) {
+				rep.Kind = c18KindName[kind]
+				rep.What = fmt.Sprintf("with GOMAXPROCS=%d %s of the bytes %s wrote does not give the value back (class %s %s)",
+					n, c18KindName[kind], c18EncName[kind], []string{"ok", "err", "panic"}[d.class], d.msg)
+				c.Fail(fmt.Sprintf("c18:%s:%s:decode-of-own-encoding-differs", c18KindName[kind], tag), rep.What, rep)
+			}
+		}
+		// correspondence + canonicity oracle on the pristine Round2 and on the tampered tails
+		c18EmitDecode(c, c18R2, cv, c18Mut{name: "pristine:" + tag, segs: c18Auto(enc2)}, true)
+		for _, m := range tampered {
+			m2 := c18Mut{name: m.name + ":" + tag, segs: m.segs}
+			d := c18EmitDecode(c, c18R2, cv, m2, false)
+			if d.class == clsOk {
+				rep.Kind = "DecodeRound2"
+				rep.Mut = m.name
+				rep.What = fmt.Sprintf("with GOMAXPROCS=%d DecodeRound2 accepts a message whose %s", n, m.name)
+				c.Fail(fmt.Sprintf("c18:DecodeRound2:%s:malformed-tail-point-accepted", tag), rep.What, rep)
+			}
+		}
+		// restart family: every message and both checkpoints through Encode/Decode
+		plan := c18Plan{G1: 1, G2: 1, E2: 1, E3: 1, Wire: true}
+		_, err := c18Protocol(cv, run.a, run.b, run.s1, run.s2, run.s3, plan, run)
+		c.Eval(fmt.Sprintf("env-run|%s|%d|%d", cv.name, n, run.s1), true)
+		c.Hist("environment:" + tag)
+		if err != nil {
+			rep.Kind = ""
+			rep.Plan = plan.String() + " under runtime.GOMAXPROCS(" + fmt.Sprint(n) + ")"
+			rep.What = fmt.Sprintf("with GOMAXPROCS=%d the run restarted from decoded copies differs: %s", n, err.Error())
+			c.Fail(fmt.Sprintf("c18:resume:%s", tag), rep.What, rep)
+		}
+	}
+}
+
 // ---------------------------------------------------------------- op histories
 //
 // A process holding several sessions calls an encoder several times and keeps
@@ -1896,6 +1981,7 @@ func runC18(c *Ctx) error {
 			c18OwnEncodings(c, base, chunkLimit)
 			if class == 2 && (cv.bl == 32 || c.Thorough()) {
 				c18TamperRound3(c, base)
+				c18Environments(c, base)
 			}
 			// (b) the run's own encodings
 			for _, k := range []int{c18R1, c18R2, c18GS, c18ES} {
